@@ -168,6 +168,7 @@ class C07:
         cfg = plan["cfg"]
         name = cfg["env"]
         rows = [E.dec_row(r) for r in plan["instances"]]
+        run.stats["env:" + name] += 1
         tmp = None
         try:
             with run.guard(name, "construct env"):
@@ -642,6 +643,13 @@ def _final_checks(run, env, cfg, td, refs, hist, pad_init, phase, ledger=True):
             if not abs(rewards[i] - want) <= _tol(want, len(acts)):
                 _fail(run, name, "tardiness", f"row {i}: reward {rewards[i]!r} != -sum w*max(0,C-d) = {want!r}",
                       "weighted_tardiness", row=i, got=rewards[i], ref=want, **common)
+    if ledger and name != "smtwtp":
+        # self-check of the reference API other checks import: objective() re-simulates from the action
+        # list alone and must agree with the schedule just validated
+        for i, ref in enumerate(refs):
+            obj = ref.objective([h[i] for h in hist])
+            if obj != rewards[i]:
+                raise HarnessError(f"reference objective {obj} != validated reward {rewards[i]} (row {i})")
     run.log.add("rewards", phase, [x.hex() if x == x else "nan" for x in rewards])
     return rewards
 
